@@ -34,6 +34,10 @@ def _reexec_if_needed() -> None:
     new.setdefault("MPLBACKEND", "Agg")
     new["PYTHONWARNINGS"] = "ignore"
     new["TQDM_DISABLE"] = "1"
+    # HOME is redirected later (private SBML cache); keep the Rust toolchain reachable
+    home = env.get("HOME", "/root")
+    new.setdefault("RUSTUP_HOME", f"{home}/.rustup")
+    new.setdefault("CARGO_HOME", f"{home}/.cargo")
     os.execve(sys.executable, [sys.executable, "-m", "vlib.run", *sys.argv[1:]], new)
 
 
